@@ -209,6 +209,10 @@ def main():
         traceback.print_exc()
         print('TOOL-FAILURE property=%s internal error: %s' % (prop, ex))
         sys.exit(2)
+    if os.environ.get('STV_DRY') == '1':
+        # development aid: build every harness of the tier (extraction + generation) and stop before discharging anything
+        print('DRY property=%s tier=%s harnesses=%d obligations=%d' % (prop, tier, len(harnesses), sum(len(h.obligations) for h in harnesses)))
+        sys.exit(0)
     # supplementary native / stock-CBMC parts of a property (e.g. C15) run alongside
     extra = []
     if hasattr(mod, 'extra_checks'):
